@@ -1,4 +1,130 @@
-(* C14 — placeholder while the pipeline is brought up; replaced by the real theorems. *)
-From MptV Require Import C14.NodeModel C14.NodeSpec.
-Example C14_placeholder : 1 = 1.
-Proof. reflexivity. Qed.
+(* C14 — Node trees stay structurally sound.
+   This file holds only the property theorems (each closed by [exact] of a lemma
+   proved elsewhere), their non-vacuity examples and Print Assumptions.
+
+   Reading guide.
+   [heap] (C14/NodeModel.v) is a pointer heap: cell id -> next, prev, parent,
+   children, name, value; [mstep] transcribes what mptcore/node/*.c does with the
+   four links, one operation of the history language [op] per step; a dereference
+   of NULL / freed / unallocated memory or a second free is [RFault].
+   [sstate] (C14/NodeSpec.v) is an ordered forest: top-level sibling lists of
+   [tree]s, a tree being identity, name, value and the ordered list of child trees;
+   [sstep] does the same operation on forests (insert at an index, remove, copy
+   with fresh ids, ...).  A forest cannot express a cycle, a node in two places, a
+   child whose parent does not list it or a next without the matching prev.
+   [inv h s] ("h represents s", C14/NodeInv.v): the link fields of every cell are
+   exactly the ones the forest dictates ([exp_l]: next/prev = neighbours in the
+   sibling list, parent = enclosing tree, children = first child), no live cell lies
+   outside the forest, and every id handed out so far is in the forest exactly once
+   or in the free list exactly once.  [wf h] is [exists s, inv h s].
+   [proved o]: the operations whose refinement is proved (NodeHistory.v): new,
+   gnode_after/before, gnode_add/node_add, gnode_insert/node_insert at every
+   position code, unlink, node/list/tree clone, clear, destroy, relink, traversal.
+   NOT in [proved]: node_move (merge), gnode_swap, gnode_switch and the harness'
+   final clean-up; for those the model is tied to the specification and to the code
+   by the differential run only (that is why the history theorems are _partial). *)
+From MptV Require Import C14.NodeModel C14.NodeSpec C14.NodeRep C14.NodeInv C14.NodeRefine
+  C14.NodeClone C14.NodeHistory.
+From Coq Require Import List ZArith.
+Import ListNotations.
+
+(* One operation, any represented state (any number of nodes, any depth, any
+   position, any names): the pointer model does not fault, returns what the forest
+   operation returns, and its links afterwards are exactly those of the resulting
+   forest — so link consistency, acyclicity and single reachability are preserved. *)
+Theorem C14_step_refines_forest :
+  forall o, proved o -> forall h s, inv h s ->
+    exists h', mstep h o = ROk (h', snd (sstep s o)) /\ inv h' (fst (sstep s o)).
+Proof. exact step_proved. Qed.
+
+(* Any history of proved operations: no step faults, every result equals the
+   specification's, and after EVERY step the heap represents the specification's
+   forest.
+   Full statement (not proved): the same without [Forall proved ops]. *)
+Theorem C14_history_refines_forest_partial :
+  forall ops h s, inv h s -> Forall proved ops -> run_rel (mrun h ops) (srun s ops).
+Proof. exact history_refines. Qed.
+
+(* Well-formedness (some forest is represented) is preserved and the step succeeds.
+   Full statement (not proved): for every operation of the history language. *)
+Theorem C14_wf_preserved_partial :
+  forall o h, proved o -> wf h -> exists h' out, mstep h o = ROk (h', out) /\ wf h'.
+Proof. exact wf_step. Qed.
+
+(* Released exactly once: in every reachable state no id is in the free list twice,
+   a freed cell is gone and not in the forest, and every id handed out is either
+   freed or a live cell.  (That no operation frees twice or touches freed memory is
+   the absence of RFault in the two theorems above.) *)
+Theorem C14_released_once :
+  forall h s, inv h s ->
+    NoDup (freed h) /\
+    (forall i, In i (freed h) -> cells h i = None /\ ~ In i (ids_st (lists s))) /\
+    (forall i, i < nextid h -> In i (freed h) \/ (exists nd, cells h i = Some nd)).
+Proof. exact inv_released_once. Qed.
+
+(* clear / destroy release exactly the nodes below (and including) the node:
+   instances of C14_step_refines_forest, stated for reference through [sstep]:
+   [sfreed] grows by [ids_f (tkids tx)] resp. [ids_t tx]. *)
+
+(* Clone: mpt_list_clone of the list starting at [x] creates a new top-level list
+   whose shape (names, values, nesting, order — identities erased) equals the
+   source's at every depth; the heap afterwards represents the old forest plus that
+   list (so every clone names its parent, next/prev agree, ...), and no existing
+   cell was changed. *)
+Theorem C14_clone_equal_shape :
+  forall h s x c l1 tx l2,
+    inv h s -> focus x (lists s) = Some (c, l1, tx, l2) ->
+    exists h' l',
+      mstep h (OLClone x) = ROk (h', OutP (Some (nextid h))) /\
+      inv h' (mkS (lists s ++ [l']) (nextid h') (sfreed s)) /\
+      shape_l l' = shape_l (tx :: l2) /\
+      (forall i, i < nextid h -> cells h' i = cells h i).
+Proof. exact clone_shape. Qed.
+
+(* ---- non-vacuity ---- *)
+(* the empty heap represents the empty forest: every history may start here *)
+Example C14_inv_empty : inv empty_heap empty_sstate.
+Proof. exact inv_empty. Qed.
+
+(* a history with inserts by position and by name, unlink, clone of a tree of depth
+   3, clear and destroy consists of proved operations only ... *)
+Definition ex_ops : list op :=
+  [ONew 1 0; ONew 2 1; ONew 1 2; ONew 3 0; ONew 2 0;
+   OIns false 0 0%Z 1; OIns true 0 (-1)%Z 2; OIns false 1 1%Z 3; OAdd true 1 0%Z 4;
+   OTClone 0; OUnlink 1; OAfter (Some 2) (Some 1); OClear 5; ODestroy 5; OTrav InOrder 3 0].
+
+Example C14_ex_proved : Forall proved ex_ops.
+Proof. repeat constructor. Qed.
+
+(* ... so the theorem applies to it; its forests are not trivial: *)
+Example C14_ex_final_forest :
+  lists (snd (last (srun empty_sstate ex_ops) (OutX, empty_sstate))) =
+  [[T 0 1 0 [T 4 2 0 []; T 2 1 2 []; T 1 2 1 [T 3 3 0 []]]]].
+Proof. vm_compute. reflexivity. Qed.
+
+Example C14_ex_clone_was_deep :
+  nth 9 (map fst (srun empty_sstate ex_ops)) OutX = OutP (Some 5) /\
+  lists (snd (nth 9 (srun empty_sstate ex_ops) (OutX, empty_sstate))) =
+  [[T 0 1 0 [T 1 2 1 [T 3 3 0 []]; T 4 2 0 []; T 2 1 2 []]];
+   [T 5 1 0 [T 6 2 1 [T 7 3 0 []]; T 8 2 0 []; T 9 1 2 []]]].
+Proof. vm_compute. split; reflexivity. Qed.
+
+(* the model runs the same history without fault and its raw-link checker agrees *)
+Example C14_ex_model_wf :
+  match last (mrun empty_heap ex_ops) None with
+  | Some (OutL l, h) => l = [4; 0; 2; 3; 1] /\ wfcheck h = true /\ freed h = [5; 9; 8; 6; 7]
+  | _ => False
+  end.
+Proof. vm_compute. repeat split; reflexivity. Qed.
+
+(* a refused destroy (node still linked) and a guard of the history language *)
+Example C14_ex_refusals :
+  map fst (srun empty_sstate [ONew 1 0; ONew 2 0; OIns false 0 0%Z 1; ODestroy 1; OAfter (Some 1) (Some 0)])
+  = [OutP (Some 0); OutP (Some 1); OutZ 0%Z; OutP (Some 1); OutX].
+Proof. vm_compute. reflexivity. Qed.
+
+Print Assumptions C14_step_refines_forest.
+Print Assumptions C14_history_refines_forest_partial.
+Print Assumptions C14_wf_preserved_partial.
+Print Assumptions C14_released_once.
+Print Assumptions C14_clone_equal_shape.
